@@ -1,6 +1,6 @@
 import SimbodyModel.Proto
 import SimbodyModel.C47
-/-! Driver for C47: closed-form geodesics of the model at `Float`.
+/-! Driver for C47: the analytic geodesic loops of the model (`R = dR * R` per knot) at `Float`.
 * `geo.sph cls r p0(3) ta(3) L N` / `geo.cyl cls R p0(3) ta(3) L N` → one `O … knot` line per knot:
   arc length, point, tangent, jacobiRot, jacobiRotDot, jacobiTrans, jacobiTransDot
 * `geo.sphPQ cls r P Q tP tQ`, `geo.cylPQ cls R P Q tP tQ` → length of `calcGeodesicAnalytical`
@@ -19,10 +19,9 @@ def handle (fn : String) (a : List Float) : List String :=
     let n := V3.unit Float.sqrt ⟨px, py, pz⟩
     let t := startTangent Float.sqrt n ⟨tx, ty, tz⟩
     let dAngle := L / (r * (Nf - 1))
+    -- the loop as coded: `R = dR * R` once per knot (proved equal to the closed form `Sph.knot` at the trig pair of k·dAngle)
     (List.range N).map (fun k =>
-      let kf := k.toFloat
-      let ang := kf * dAngle
-      knotLine fn (Sph.knot r n t (L * (kf / (Nf - 1))) (Float.cos ang) (Float.sin ang)))
+      knotLine fn (Sph.knotLoop r n t (Float.cos dAngle) (Float.sin dAngle) k (L * (k.toFloat / (Nf - 1)))))
   | "geo.cyl", [R, px, py, pz, tx, ty, tz, L, Nf] =>
     let N := Nf.toUInt64.toNat
     let n0 := V3.unit Float.sqrt ⟨px, py, 0⟩
@@ -30,9 +29,7 @@ def handle (fn : String) (a : List Float) : List String :=
     let angle := Cyl.omega R n0 t0 * L
     let dAngle := angle / (Nf - 1)
     (List.range N).map (fun k =>
-      let kf := k.toFloat
-      let ang := kf * dAngle
-      knotLine fn (Cyl.knot R n0 t0 pz (L * (kf / (Nf - 1))) (Float.cos ang) (Float.sin ang)))
+      knotLine fn (Cyl.knotLoop R n0 t0 pz (Float.cos dAngle) (Float.sin dAngle) k (L * (k.toFloat / (Nf - 1)))))
   | "geo.sphPQ", [r, px, py, pz, qx, qy, qz, ax, ay, az, bx, b_y, bz] =>
     ["O geo.sphPQ" ++ fl [sphPQLength Float.sqrt Float.atan2 twoPi r ⟨px, py, pz⟩ ⟨qx, qy, qz⟩ ⟨ax, ay, az⟩ ⟨bx, b_y, bz⟩]]
   | "geo.cylPQ", [R, px, py, pz, qx, qy, qz, ax, ay, az, bx, b_y, bz] =>
